@@ -39,7 +39,20 @@ pub struct ReqGen {
     pub nodes: Vec<u8>,
     pub n_keys: u64,
     pub n_ks: usize,
+    /// document ids spread over the whole u64 range (byte order != numeric order in a little-endian key, sign bit set,
+    /// the extremes) instead of 1..=50: irrelevant to the set, not to a backend underneath it
+    pub wide_ids: bool,
     used: std::collections::BTreeSet<Stamp>,
+}
+
+/// Injective map from the small key numbers the generator draws to ids spread over the u64 range.
+pub fn wide_id(k: u64) -> u64 {
+    match k % 4 {
+        0 => k,
+        1 => k << 8,
+        2 => (1u64 << 63) | k,
+        _ => u64::MAX - k,
+    }
 }
 
 impl ReqGen {
@@ -54,6 +67,7 @@ impl ReqGen {
             nodes,
             n_keys: 1 + src.below64(4),
             n_ks: 1 + src.below(2),
+            wide_ids: src.chance(1, 2),
             used: Default::default(),
         }
     }
@@ -77,7 +91,8 @@ impl ReqGen {
     }
 
     pub fn w(&mut self, src: &mut Src) -> W {
-        W { key: 1 + src.below64(self.n_keys), stamp: self.stamp(src), len: *src.pick(&[0usize, 1, 5, 40]) }
+        let k = 1 + src.below64(self.n_keys);
+        W { key: if self.wide_ids { wide_id(k) } else { k }, stamp: self.stamp(src), len: *src.pick(&[0usize, 1, 5, 40]) }
     }
 
     /// bulk content: distinct ids, or repeated ids in ascending / descending stamp order
@@ -90,7 +105,8 @@ impl ReqGen {
             .map(|_| {
                 let mut w = self.w(src);
                 if large {
-                    w.key = 1 + src.below64(50);
+                    let k = 1 + src.below64(50);
+                    w.key = if self.wide_ids { wide_id(k) } else { k };
                 }
                 w
             })
@@ -285,11 +301,47 @@ async fn run(case: &Case) -> Outcome {
             let idx = g.mutating_calls;
             g.faults.insert(idx, *f);
         }
+        // what the set held before the request: needed to decide which items the request had to apply
+        let pre_set = match req {
+            Req::Purge { .. } => None,
+            Req::Set { ks, .. } | Req::Del { ks, .. } | Req::MultiSet { ks, .. } | Req::MultiDel { ks, .. } => {
+                Some(e2::actor_set(&group, &ks_name(*ks)).await.unwrap_or_default())
+            },
+        };
         let ok = send_req(&group, req).await;
         store.inner.lock().faults.clear();
         if store.inner.lock().injected > injected_before {
             faulted = true;
-            ensure!(!ok, "failure-swallowed", "request {i} reported success although storage failed");
+            if ok {
+                // Success after a storage failure is legitimate only if the node made up for it (e.g. retried): every
+                // item the set was ready to apply must now be in storage at its stamp or a newer one. Otherwise the
+                // failure was swallowed: the caller is told "done" for a mutation applied to neither side.
+                let (ks, items, del): (usize, Vec<&W>, bool) = match req {
+                    Req::Set { ks, w, .. } => (*ks, vec![w], false),
+                    Req::Del { ks, w, .. } => (*ks, vec![w], true),
+                    Req::MultiSet { ks, ws, .. } => (*ks, ws.iter().collect(), false),
+                    Req::MultiDel { ks, ws, .. } => (*ks, ws.iter().collect(), true),
+                    Req::Purge { .. } => (0, vec![], false),
+                };
+                let st = store_view(&store, &ks_name(ks));
+                let pre = pre_set.clone().unwrap_or_default();
+                for w in items {
+                    if !pre.will_apply(w.key, w.stamp.hlc()) {
+                        continue;
+                    }
+                    let held = st.live.get(&w.key).into_iter().chain(st.dead.get(&w.key)).max().copied();
+                    ensure!(
+                        held.map_or(false, |h| h >= w.stamp),
+                        "failure-swallowed",
+                        "request {i} ({}) reported success although storage failed and {} of key {} at {:?} is not in storage (holds {:?})",
+                        req_json(req),
+                        if del { "the delete" } else { "the write" },
+                        w.key,
+                        w.stamp,
+                        held
+                    );
+                }
+            }
         }
         let tomb_after: usize = (0..2).map(|k| store_view(&store, &ks_name(k)).dead.len()).sum();
         if matches!(req, Req::Purge { .. }) && tomb_after < tomb_before {
